@@ -18,6 +18,7 @@ from math import prod
 import numpy as np
 
 from mc import holders as H
+from mc import observe as O
 from mc import refmodel as rm
 from mc import space
 from mc.engine import exc_symptom, short_tb
@@ -292,10 +293,84 @@ def gen_cases(tier, seed):
     for name, p in loss_configs("quick")[:3]:
         yield {"check": "estimate", "shape": [3], "rank": 2, "loss": name, "param": p, "lists": "all",
                "tier": tier, "seed": seed}
+    yield from _rerun_cases(tier, seed)
 
 
 def run_case(case, ctx):
     globals()["_run_" + case["check"]](case, ctx)
+
+
+# ---------------------------------------------------------------------------
+# depth-2 history on the data object: evaluate, overwrite one stored entry of the same data object in place (entry
+# count and shape unchanged), evaluate again.  The second evaluation must be the evaluation of the edited data.
+
+
+def _rerun_cases(tier, seed):
+    for s in ((2, 3), (2, 2, 2)):
+        for name, p in loss_configs("quick"):
+            for holder in ("tensor", "sptensor"):
+                yield {"check": "rerun", "shape": list(s), "rank": 2, "loss": name, "param": p, "holder": holder,
+                       "kw": "unit", "tier": tier, "seed": seed}
+
+
+def _run_rerun(case, ctx):
+    from pyttb.gcp import fg
+
+    name, p = case["loss"], case["param"]
+    shape = tuple(case["shape"])
+    seed = case.get("seed", 0)
+    ddom, mdom = LOSS_DOM[name]
+    f, g, lb = get_handles(name, p)
+    xv = data_for(shape, ddom, seed)
+    A = rm.arr(shape, xv)
+    cells = rm.cells(shape)
+    nz = [c for c in cells if A[c] != 0]
+    pool = [v for v in _DATA[ddom] if v != 0.0]
+    ctx.state()
+    if not nz or len(set(pool)) < 2 and ddom != "binary":
+        ctx.inadm()
+        return
+    cell = nz[-1]
+    others = [v for v in pool if v != A[cell]]
+    if not others:
+        # binary data: the only other value is 0 (the entry leaves the stored pattern of a sparse holder)
+        others = [0.0]
+    B = A.copy()
+    B[cell] = others[0]
+    K, U, lam = _model(case)
+    Mref = rm.kruskal(lam, U)
+    X = _holder(shape, xv, case["holder"])
+    sub = dict(case)
+    ok, r1 = _call(ctx, "fg.evaluate", lambda: fg.evaluate(_model(case)[0], X, None, f, g), sub, "rerun:first")
+    if not ok:
+        return
+    X[cell] = float(B[cell])
+    if not rm.same(np.asarray(O.dense_of(X), dtype=float), B):
+        ctx.fail(case["holder"] + ".__setitem__", "wrong_value", "the edited data object does not hold the edited data",
+                 "rerun", sub)
+        return
+    ok, r2 = _call(ctx, "fg.evaluate", lambda: fg.evaluate(_model(case)[0], X, None, f, g), sub, "rerun:second")
+    if not ok:
+        return
+    F2, G2 = r2
+    F_ref = float(np.sum(np.asarray(f(B, Mref), dtype=float)))
+    F_abs = float(np.sum(np.abs(np.asarray(f(B, Mref), dtype=float)))) + 0.01 * float(np.sum(1.0 + np.abs(B) + np.abs(Mref)))
+    ctx.nontriv()
+    if not abs(float(F2) - F_ref) <= 1e-11 * F_abs + 1e-300:
+        ctx.fail("fg.evaluate", "history_dependent",
+                 f"after overwriting one stored entry of the same data object: F={float(F2)!r}, sum of the loss over the "
+                 f"edited data={F_ref!r} (first evaluation gave {float(r1[0])!r})", "rerun:F", sub)
+        return
+    Y = np.asarray(g(B, Mref), dtype=float)
+    for n in range(len(shape)):
+        want = _ref_grad(Y, U, lam, n)
+        scale = _ref_grad(np.abs(Y) + 0.01, [np.abs(u) for u in U], np.abs(lam), n)
+        if not np.all(np.abs(np.asarray(G2[n], dtype=float) - want) <= 1e-11 * scale + 1e-300):
+            ctx.fail("fg.evaluate", "history_dependent",
+                     f"after overwriting one stored entry of the same data object: mode {n} gradient is not the gradient "
+                     f"for the edited data", "rerun:G", sub)
+            break
+    ctx.outcome([name, str(p), list(shape), F_ref])
 
 
 # ---------------------------------------------------------------------------
